@@ -738,6 +738,11 @@ ssize_t ZCK_PUBLIC_API zck_get_chunk_data(zckChunk *idx, char *dst,
     if(zck_get_chunk_size(dict) > 0 && zck->comp.dict == NULL) {
         if(zck_get_chunk_start(dict) < 0)
             return -1;
+        if(!comp_reset_comp_data(zck))
+            return -1;
+        zck->comp.data_loc = 0;
+        zck->comp.data_idx = NULL;
+        zck->comp.data_eof = false;
         if(!seek_data(zck, zck_get_chunk_start(dict), SEEK_SET))
             return -1;
         if(!comp_reset(zck))
@@ -748,7 +753,9 @@ ssize_t ZCK_PUBLIC_API zck_get_chunk_data(zckChunk *idx, char *dst,
             return -1;
     }
 
-    /* Seek to beginning of requested chunk */
+    /* Seek to beginning of requested chunk, forgetting everything an earlier
+     * read left behind (position in the chunk, end-of-data flag, running
+     * chunk checksum) */
     if(!comp_reset_comp_data(zck))
         return -1;
     if(!comp_reset(zck))
@@ -756,6 +763,10 @@ ssize_t ZCK_PUBLIC_API zck_get_chunk_data(zckChunk *idx, char *dst,
     if(!comp_init(zck))
         return -1;
     if(!seek_data(zck, zck_get_chunk_start(idx), SEEK_SET))
+        return -1;
+    zck->comp.data_loc = 0;
+    zck->comp.data_eof = false;
+    if(!hash_init(zck, &(zck->check_chunk_hash), &(zck->chunk_hash_type)))
         return -1;
     zck->comp.data_idx = idx;
     return comp_read(zck, dst, dst_size, 1);
